@@ -145,6 +145,18 @@ theorem bridge_handover_spec (evs : List Event) (c : Client) (s : Session)
   rw [hd]
   exact ⟨by omega, by simp⟩
 
+/-- right after the step that establishes its bridge the connector has nothing left in the relay
+    (`BridgeDrained`, the clause the monitor checks on the implementation's read-buffer size) -/
+theorem bridge_drained (evs : List Event) (c : Client) (s : Session)
+    (hc : (run init evs).get c = some s) (hst : s.state = .awaitingIdentity) :
+    ∃ s', (handleIdentityReady (run init evs) c).get c = some s' ∧ BridgeDrained s'.readBuf.length := by
+  obtain ⟨_, _, _, h⟩ := bridge_handover evs c s hc hst
+  cases hg : (handleIdentityReady (run init evs) c).get c with
+  | none => simp [hg] at h
+  | some s' =>
+    simp only [hg, Option.map_some, Option.some.injEq] at h
+    exact ⟨s', rfl, by simp [BridgeDrained, h]⟩
+
 /-- `C25.delivery` (specification form) -/
 theorem delivery_spec (evs : List Event) (c : Client) (data : Bytes) :
     Delivery (viewOf (run init evs)) c (some data)
